@@ -2,7 +2,9 @@
 import os, sys, json, subprocess, tempfile, shutil, glob
 
 
-def build_and_run(replayer, kv_path, repo, verif, defines=(), entry=''):
+def build_and_run(replayer, kv_path, repo, verif, defines=(), entry='', harness=''):
+    if replayer == "harness":
+        return run_harness_natively(kv_path, repo, verif, defines, entry, harness)
     src = os.path.join(verif, "replay", replayer + ".c")
     if not os.path.exists(src):
         return None, "no replayer " + replayer
@@ -28,6 +30,36 @@ def build_and_run(replayer, kv_path, repo, verif, defines=(), entry=''):
         shutil.rmtree(tmp, ignore_errors=True)
 
 
+def run_harness_natively(kv_path, repo, verif, defines, entry, harness):
+    """compile the job's own harness file natively with replay/shim.h and run its entry on the recorded inputs"""
+    tmp = tempfile.mkdtemp(prefix="verif_replay_")
+    try:
+        exe = os.path.join(tmp, "rp")
+        main = os.path.join(tmp, "m.c")
+        open(main, "w").write('#include "%s"\n#include "%s"\n' % (os.path.join(verif, "harness", harness), os.path.join(verif, "replay", "harness_main.c")))
+        htxt = open(os.path.join(verif, "harness", harness)).read()
+        import re as _re
+        included = set(_re.findall(r'#include "(\w+\.c)"', htxt))
+        rest = [f for f in sorted(glob.glob(os.path.join(repo, "libscpi", "src", "*.c"))) if os.path.basename(f) not in included]
+        cmd = ["cc", "-g", "-O0", "-w", "-fsanitize=address,undefined", "-fno-sanitize-recover=undefined", "-DENTRY=" + entry,
+               "-I", os.path.join(repo, "libscpi", "inc"), "-I", os.path.join(repo, "libscpi", "src"),
+               "-I", os.path.join(verif, "harness"), "-I", os.path.join(verif, "replay"),
+               "-include", os.path.join(verif, "replay", "shim.h")] + ["-D" + d for d in defines] + [main] + rest + ["-lm", "-o", exe]
+        p = subprocess.run(cmd, stdout=subprocess.PIPE, stderr=subprocess.STDOUT, timeout=300)
+        if p.returncode != 0:
+            return None, "harness does not build natively: " + p.stdout.decode("utf-8", "replace")[-800:]
+        env = dict(os.environ, ASAN_OPTIONS="detect_leaks=0:abort_on_error=0", UBSAN_OPTIONS="print_stacktrace=1")
+        p = subprocess.run([exe, kv_path], stdout=subprocess.PIPE, stderr=subprocess.STDOUT, timeout=120, env=env)
+        out = p.stdout.decode("utf-8", "replace")
+        if "REPRODUCED" in out.replace("NOT-REPRODUCED", "") or "ERROR: AddressSanitizer" in out or "runtime error:" in out:
+            return True, out[-1500:]
+        if "NOT-REPRODUCED" in out:
+            return False, out[-800:]
+        return None, out[-800:]
+    finally:
+        shutil.rmtree(tmp, ignore_errors=True)
+
+
 def kv_from_record(rec, path):
     with open(path, "w") as f:
         for k, (v, w) in rec.get("inputs", {}).get("kv", {}).items():
@@ -38,7 +70,7 @@ def run(replayer, replay_path, repo, verif):
     rec = json.load(open(replay_path))
     kv = replay_path[:-5] + ".kv"
     kv_from_record(rec, kv)
-    ok, out = build_and_run(replayer, kv, repo, verif, rec.get("defines", []), rec.get("entry", ""))
+    ok, out = build_and_run(replayer, kv, repo, verif, rec.get("defines", []), rec.get("entry", ""), rec.get("harness", ""))
     rec["native_replay"] = {"replayer": replayer, "reproduced": ok, "output": out}
     json.dump(rec, open(replay_path, "w"), indent=1)
     return ok
